@@ -428,6 +428,19 @@ def handle (j : Json) : R Json := do
       | some none => Json.null
       | some (some (.inl x)) => Json.arr #[Json.str "spec", jStr x]
       | some (some (.inr x)) => Json.arr #[Json.str "match", jStr x])
+  | "assets.session" =>
+    let asks ← getArr (fun q => do
+      let c := fieldD q "containing" Json.null
+      pure ((← getStr (← field q "kind")),
+            ({ specified := ← getOptStr (fieldD q "specified" Json.null),
+               containing := ← (if c.isNull then pure none else do pure (some (← getArr getStr c))),
+               file := ← getStr (← field q "file") } : AskEnv))) (← field j "asks")
+    pure (match (AssetsObj.fresh (← getArr getStr (← field j "dirlist"))).run asks with
+      | none => Json.str "unmodelled"
+      | some (_, vs) => Json.arr (vs.map fun v => match v with
+          | none => Json.null
+          | some (.inl x) => Json.arr #[Json.str "spec", jStr x]
+          | some (.inr x) => Json.arr #[Json.str "match", jStr x]).toArray)
   | "assets.matches" =>
     pure (match assetMatches (← getStr (← field j "kind")) (← getStr (← field j "name")) with
       | some b => jBool b | none => Json.str "unmodelled")
